@@ -162,11 +162,16 @@ Proof.
   destruct x as [s | s | | s m e H]; try destruct s; repeat split; reflexivity.
 Qed.
 
+(* what `reversed` computes, by evaluation on a constructor: independent of how the source spells it
+   (struct literal, destructuring `let`, `from_determinant`) *)
+Lemma lsi_reversed_eq : forall l, lsi_reversed l = mklsi (f_neg (signed_side l)).
+Proof. intros [x]. reflexivity. Qed.
+
 Lemma lsi_reversed_finite : forall l, lsi_finite l -> lsi_finite (lsi_reversed l).
-Proof. intros l H. unfold lsi_finite, lsi_reversed, f_neg. cbn [signed_side]. rewrite is_finite_Bopp. exact H. Qed.
+Proof. intros l H. unfold lsi_finite. rewrite lsi_reversed_eq. unfold f_neg. cbn [signed_side]. rewrite is_finite_Bopp. exact H. Qed.
 
 Lemma lsi_reversed_val : forall l, lsi_val (lsi_reversed l) = - lsi_val l.
-Proof. intros l. unfold lsi_val, lsi_reversed, f_neg. cbn [signed_side]. apply B2R_Bopp. Qed.
+Proof. intros l. unfold lsi_val. rewrite lsi_reversed_eq. unfold f_neg. cbn [signed_side]. apply B2R_Bopp. Qed.
 
 (* the three classes *)
 Inductive side_class := SLeft | SRight | SOnLine.
@@ -235,15 +240,20 @@ Hypothesis D1 : D p1.
 Hypothesis D2 : D p2.
 Hypothesis Dq : D q.
 
+(* what side_query computes, by evaluation on constructors: independent of the spelling of the source
+   (consecutive `let`s, array `map` + destructuring, names of the temporaries) *)
+Lemma side_query_eq : forall a b c, sq a b c = mklsi (robust_orient2d a b c).
+Proof. intros [ax ay] [bx by_] [cx cy]. reflexivity. Qed.
+
 Lemma side_query_finite_on : lsi_finite (sq p1 p2 q).
 Proof.
-  unfold lsi_finite, side_query, from_determinant. rewrite !to_robust_coord_id. cbn [signed_side].
+  unfold lsi_finite. rewrite side_query_eq. cbn [signed_side].
   apply (Horient p1 p2 q D1 D2 Dq).
 Qed.
 
 Lemma side_query_sign_on : Rcompare (lsi_val (sq p1 p2 q)) 0 = Rcompare (orientR p1 p2 q) 0.
 Proof.
-  unfold lsi_val, side_query, from_determinant. rewrite !to_robust_coord_id. cbn [signed_side].
+  unfold lsi_val. rewrite side_query_eq. cbn [signed_side].
   apply (Horient p1 p2 q D1 D2 Dq).
 Qed.
 
@@ -295,7 +305,10 @@ Qed.
 
 Theorem is_ordered_ccw_spec_on :
   is_ordered_ccw robust_orient2d p1 p2 q = true <-> orientR p1 p2 q >= 0.
-Proof. unfold is_ordered_ccw. apply side_query_left_or_on_on. Qed.
+Proof.
+  change (is_ordered_ccw robust_orient2d p1 p2 q) with (is_on_left_side_or_on_line (sq p1 p2 q)).
+  apply side_query_left_or_on_on.
+Qed.
 
 End Query.
 
@@ -312,7 +325,11 @@ Qed.
 Theorem contained_in_circumference_spec_on : forall v1 v2 v3 p, D v1 -> D v2 -> D v3 -> D p ->
   (contained_in_circumference robust_incircle v1 v2 v3 p = true <-> incircleR v1 v2 v3 p > 0).
 Proof.
-  intros v1 v2 v3 p H1 H2 H3 H4. unfold contained_in_circumference. rewrite !to_robust_coord_id.
+  intros v1 v2 v3 p H1 H2 H3 H4.
+  (* what the wrapper computes, by evaluation on constructors (independent of the spelling of the source) *)
+  assert (E : contained_in_circumference robust_incircle v1 v2 v3 p = f_lt (robust_incircle v3 v2 v1 p) (f_of_bits 0))
+    by (destruct v1, v2, v3, p; reflexivity).
+  rewrite E.
   destruct (Hincircle v3 v2 v1 p H3 H2 H1 H4) as [Hf Hs].
   rewrite (f_lt_zero_iff _ Hf).
   destruct (Rcompare_zero_transfer _ _ Hs) as (_ & T & _). rewrite T.
